@@ -4,6 +4,15 @@ import json
 import subprocess
 
 CLAIMED = {
+    "C17": dict(level="exploration",
+                text="Seeded search over the simulator's environment seams: for every golden program and generated programs one reference "
+                     "run and perturbed runs (report-option subsets from the property's list, option placement argv/ASCMD/key file, LANG, "
+                     "cwd and path forms, output path, stdout kind, clock incl. roll-over, heap/stack fill and address padding, stdio buffer "
+                     "sizes, read chunking, code-buffer size); byte equality of code files, full-output equality under memory perturbation, "
+                     "equality modulo stamp under clock perturbation. Exact because the clock is simulated.",
+                note="Trusted: simrt clock/env/cwd/fstat seams, glibc M_PERTURB as heap fill; stamp masked by date/time patterns on both sides.",
+                technique="deterministic simulation: environment/clock/memory perturbation with differential oracle against a reference run",
+                design="4. C17"),
     "C02": dict(level="exploration",
                 text="Seeded search over workloads (planted error/warning/fatal counts incl. the 16-bit boundaries, options, stale outputs, "
                      "1-3 sources per process) plus complete enumeration of one I/O fault at every open/write/seek/close of every output "
@@ -36,7 +45,7 @@ NA_PURE = {
     "C16": "metamorphic relation over source spelling; CR-LF/INCLUDE variants are different inputs, not schedules or faults",
     "C20": "diagnostic positions are a pure function of include/macro nesting of the input; no clock, fault or cross-file history involved",
 }
-PENDING = {k: "claimed in DESIGN.md; its check is still being built in this commit series" for k in ("C01", "C04", "C17", "C18", "C19")}
+PENDING = {k: "claimed in DESIGN.md; its check is still being built in this commit series" for k in ("C01", "C04", "C18", "C19")}
 
 ORDER = ["C01", "C02", "C03", "C04", "C17", "C18", "C19"]
 
